@@ -24,7 +24,7 @@ def new_result(task):
     return dict(task=task, paths=0, outcomes={}, obligations=0, discharged=0, trivial=0, by_clause={}, failures=[],
                 undecided=[], limits=[], engine_errors=[], z3_s=0.0, cvc5_s=0.0, z3_queries=0, cvc5_queries=0,
                 solver_calls=0, crosschecked=0, cross_mismatch=[], samples=[], wall_s=0.0, nontrivial_paths=0,
-                units_entered=[], exc_types={})
+                units_entered=[], exc_types={}, summaries_used=[], externals_used=[])
 
 
 def run_task(task):
@@ -104,6 +104,8 @@ def run_task(task):
         I = env.get('interp')
         if I is not None:
             res['units_entered'] = sorted(I.units_entered)
+            res['summaries_used'] = sorted(I.summaries_used)
+            res['externals_used'] = sorted(I.externals_used)
     except EngineError as e:
         res['engine_errors'].append('%s\n%s' % (e, traceback.format_exc()[-2000:]))
     except Exception as e:
@@ -138,6 +140,8 @@ def merge_results(results):
         if len(agg['samples']) < 4:
             agg['samples'].extend(r['samples'][:1])
         agg['units_entered'] = sorted(set(agg['units_entered']) | set(r.get('units_entered', [])))
+        for k in ('summaries_used', 'externals_used'):
+            agg[k] = sorted(set(agg[k]) | set(r.get(k, [])))
     return agg
 
 
